@@ -111,7 +111,35 @@ fn classify(key: &str, default: &Option<String>) -> String {
     }
 }
 
-fn texts_for(kind: &str, rng: &mut Rng, extra: usize) -> Vec<String> {
+const CATS: [&str; 4] = ["rows", "bytes", "timing", "uncategorized"];
+
+/// every ordered selection of 1..4 distinct categories, joined with `,` (64 texts)
+fn category_lists() -> Vec<Vec<&'static str>> {
+    fn go(cur: &mut Vec<&'static str>, out: &mut Vec<Vec<&'static str>>) {
+        if !cur.is_empty() {
+            out.push(cur.clone());
+        }
+        for c in CATS {
+            if !cur.contains(&c) {
+                cur.push(c);
+                go(cur, out);
+                cur.pop();
+            }
+        }
+    }
+    let mut out = vec![];
+    go(&mut vec![], &mut out);
+    out
+}
+
+const CATEGORIES_KEY: &str = "datafusion.explain.analyze_categories";
+const F64_TEXTS: &[&str] = &["0", "1", "0.5", "1e-3", "0.001", "0.25", "2.5", "100", "1e300", "123456789.125", "-0", "-1.5", "inf", "NaN", "1e400", "1.", ".5", "5e-324", "1e", "0.1.2", "1,5", "0x1p3"];
+
+fn is_f64_key(key: &str, kind: &str) -> bool {
+    kind.contains("other") && key != CATEGORIES_KEY
+}
+
+fn texts_for(key: &str, kind: &str, rng: &mut Rng, extra: usize) -> Vec<String> {
     let mut v: Vec<String> = ["", " ", "abc", "1.5", "-", "+", "--1", "1 ", " 1", "1_000", "0x10", "١٢", "true ", "yes", "null", "NULL", "\t"].iter().map(|s| s.to_string()).collect();
     let nums = [
         "0", "1", "2", "3", "+5", "-0", "+0", "00012", "007", "100", "101", "255", "256", "4294967295", "4294967296", "9223372036854775807", "9223372036854775808", U64MAX, "18446744073709551616",
@@ -129,6 +157,21 @@ fn texts_for(kind: &str, rng: &mut Rng, extra: usize) -> Vec<String> {
     }
     if kind.contains("enum") {
         for s in enums {
+            v.push(s.to_string());
+        }
+    }
+    if key == CATEGORIES_KEY {
+        for s in ["all", "none", "ALL", " None ", "All", "", ",", "rows,", ",rows", "rows,,bytes", "rows,rows", "rows,bytes,rows", "rows,rows,bytes", "bytes,bytes,bytes", "row", "rows bytes", "rows;bytes", "all,rows", "none,rows", "rows,all"] {
+            v.push(s.to_string());
+        }
+        for l in category_lists() {
+            v.push(l.join(","));
+            v.push(l.join(" , "));
+            v.push(format!(" {} ", l.join(",").to_uppercase()));
+        }
+    }
+    if is_f64_key(key, kind) {
+        for s in F64_TEXTS {
             v.push(s.to_string());
         }
     }
@@ -169,7 +212,7 @@ fn per_key(run: &mut Run, rng: &mut Rng) -> Vec<(String, String, Option<String>)
     let extra = run.budget(12, 400) as usize;
     for (key, kind, default) in &kinds {
         let before = snapshot(&defaults);
-        for t in texts_for(kind, rng, extra) {
+        for t in texts_for(key, kind, rng, extra) {
             let mut cfg = ConfigOptions::default();
             let res = cfg.set(key, &t);
             let after = snapshot(&cfg);
@@ -177,6 +220,14 @@ fn per_key(run: &mut Run, rng: &mut Rng) -> Vec<(String, String, Option<String>)
             let ans = format!("{} {}", if res.is_ok() { "ok" } else { "err" }, show_opt(&shown));
             let nontrivial = res.is_err() || shown.as_deref() != Some(t.as_str());
             run.case("setx", &format!("({kind} {} {})", show_opt(default), cps(&t)), &ans, nontrivial);
+            if key == CATEGORIES_KEY && t.is_ascii() {
+                // the categories kind has its own model op: FromStr then Display
+                let a = match (&res, &shown) {
+                    (Ok(()), Some(s)) => format!("ok {}", cps(s)),
+                    _ => "err".to_string(),
+                };
+                run.case("cats", &cps(&t), &a, true);
+            }
             match res {
                 Ok(()) => {
                     // oracle: setting the reported text again changes nothing anywhere
@@ -209,8 +260,21 @@ fn diff(a: &BTreeMap<String, Option<String>>, b: &BTreeMap<String, Option<String
 
 /// `small`: values that are safe to *execute queries* with (SET/SHOW runs SQL: a huge
 /// target_partitions or batch size would make the engine allocate accordingly)
-fn valid_text(kind: &str, rng: &mut Rng, small: bool) -> String {
+fn valid_text(key: &str, kind: &str, rng: &mut Rng, small: bool) -> String {
     let k = kind.trim_start_matches("(opt ").trim_start_matches("(opts ");
+    if key == CATEGORIES_KEY {
+        return match rng.below(6) {
+            0 => "all".to_string(),
+            1 => "none".to_string(),
+            _ => {
+                let ls = category_lists();
+                rng.pick(&ls).join(",")
+            }
+        };
+    }
+    if is_f64_key(key, kind) {
+        return rng.pick(&["0", "1", "0.5", "0.001", "0.25", "2.5", "1e-3"]).to_string();
+    }
     if k.starts_with("bool") || k.starts_with("sbool") {
         rng.pick(&["true", "false"]).to_string()
     } else if k.starts_with("(uint") || k.starts_with("(umin") || k.starts_with("(par") {
@@ -255,7 +319,7 @@ fn histories(run: &mut Run, rng: &mut Rng, kinds: &[(String, String, Option<Stri
             } else {
                 rng.pick(kinds)
             };
-            let t = valid_text(kind, rng, false);
+            let t = valid_text(key, kind, rng, false);
             if cfg.set(key, &t).is_ok() {
                 hist.push(format!("{key}={t}"));
             }
@@ -328,7 +392,7 @@ fn set_show(run: &mut Run, rng: &mut Rng, kinds: &[(String, String, Option<Strin
     let per_key = run.budget(2, 12);
     for (key, kind, _) in kinds {
         for _ in 0..per_key {
-            let t = valid_text(kind, rng, true);
+            let t = valid_text(key, kind, rng, true);
             let ctx = SessionContext::new_with_config(SessionConfig::new().with_information_schema(true));
             let mut cfg = ctx.copied_config().options().as_ref().clone();
             let r_sql = set_sql(&rt, &ctx, key, &t);
@@ -401,11 +465,92 @@ fn decimals(run: &mut Run, rng: &mut Rng) {
     }
 }
 
+/// Values the configuration can HOLD (built through the public fields, not through `set`): the text
+/// `entries()` reports for them must set the option back to exactly that value — on the whole
+/// listing — and `SET` + `SHOW` must report that same text.
+fn reported_values(run: &mut Run, kinds: &[(String, String, Option<String>)]) {
+    use datafusion_common::format::{ExplainAnalyzeCategories, MetricCategory};
+    let rt = tokio::runtime::Builder::new_current_thread().enable_all().build().unwrap();
+    let cat = |s: &str| match s {
+        "rows" => MetricCategory::Rows,
+        "bytes" => MetricCategory::Bytes,
+        "timing" => MetricCategory::Timing,
+        _ => MetricCategory::Uncategorized,
+    };
+    let mut values: Vec<(String, ExplainAnalyzeCategories)> = vec![("all".into(), ExplainAnalyzeCategories::All), ("none".into(), ExplainAnalyzeCategories::Only(vec![]))];
+    for l in category_lists() {
+        values.push((l.join(","), ExplainAnalyzeCategories::Only(l.iter().map(|s| cat(s)).collect())));
+    }
+    // repeated, but never adjacent, categories survive `dedup()`
+    for l in [vec!["rows", "bytes", "rows"], vec!["timing", "rows", "timing", "rows"]] {
+        values.push((l.join(","), ExplainAnalyzeCategories::Only(l.iter().map(|s| cat(s)).collect())));
+    }
+    let mut check = |run: &mut Run, key: &str, cfg: ConfigOptions, label: &str| {
+        let base = snapshot(&cfg);
+        let Some(Some(text)) = base.get(key).cloned() else {
+            run.oracle(false, &format!("reported-value-has-no-text key={key} value={label}"), "");
+            return;
+        };
+        let mut c2 = cfg.clone();
+        let r = c2.set(key, &text);
+        let after = snapshot(&c2);
+        run.count("reported-value");
+        run.oracle(
+            r.is_ok() && after == base,
+            &format!("reset-from-shown held-value key={key} text={}", cps(&text)),
+            &format!("an option holding {label} reports {text:?}; set({key:?}, {text:?}) gave {r:?} and changed {:?}", diff(&base, &after)),
+        );
+        // SET from the reported text, then SHOW: the same text
+        let ctx = SessionContext::new_with_config(SessionConfig::new().with_information_schema(true));
+        let r_sql = set_sql(&rt, &ctx, key, &text);
+        let got = show_sql(&rt, &ctx, key);
+        run.oracle(
+            r_sql.is_ok() && got.as_ref().ok() == Some(&Some(text.clone())),
+            &format!("set-reported-text-then-show key={key} text={}", cps(&text)),
+            &format!("SET {key} = {text:?} gave {r_sql:?}; SHOW reports {got:?}"),
+        );
+    };
+    for (label, v) in values {
+        let mut cfg = ConfigOptions::default();
+        cfg.explain.analyze_categories = v;
+        check(run, CATEGORIES_KEY, cfg, &label);
+    }
+    // a held list with ADJACENT duplicates is the one value whose reported text does not set it back
+    // (`cats.dedup()` in FromStr): recorded, not a failure — it denotes the same set of categories
+    {
+        let mut cfg = ConfigOptions::default();
+        cfg.explain.analyze_categories = ExplainAnalyzeCategories::Only(vec![MetricCategory::Rows, MetricCategory::Rows]);
+        let text = value_of(&cfg, CATEGORIES_KEY).unwrap_or_default();
+        let mut c2 = cfg.clone();
+        let _ = c2.set(CATEGORIES_KEY, &text);
+        run.note(&format!("analyze_categories holding Only([Rows, Rows]) reports {text:?}; setting that text stores a value reporting {:?} (adjacent duplicates are removed by FromStr)", value_of(&c2, CATEGORIES_KEY)));
+    }
+    // f64 options: whatever text `Display for f64` gives is what entries() reports
+    let floats = [0.0f64, 1.0, 0.5, 1e-3, 0.25, 2.5, 100.0, 1e300, 123456789.125, 0.1, 1.0 / 3.0, 5e-324, f64::MAX, -1.5];
+    for (key, kind, _) in kinds {
+        if !is_f64_key(key, kind) {
+            continue;
+        }
+        for x in floats {
+            let text = x.to_string();
+            let mut cfg = ConfigOptions::default();
+            if cfg.set(key, &text).is_err() {
+                // range-restricted option: not a value it can hold
+                continue;
+            }
+            let shown = value_of(&cfg, key);
+            run.oracle(shown.as_deref() == Some(text.as_str()), &format!("f64-display-text-reported key={key} text={text}"), &format!("set({key:?}, {text:?}) reports {shown:?}"));
+            check(run, key, cfg, &text);
+        }
+    }
+}
+
 pub fn run(run: &mut Run, args: &Args) {
     let mut rng = Rng::new(args.seed);
     let kinds = per_key(run, &mut rng);
     run.add("keys", kinds.len() as u64);
     histories(run, &mut rng, &kinds);
     set_show(run, &mut rng, &kinds);
+    reported_values(run, &kinds);
     decimals(run, &mut rng);
 }
